@@ -93,7 +93,8 @@ Definition dPC : dec pcobj :=
 
 Inductive op := OEv (e : event) | OSnap | OPG (g : pgobj) (cls : Z) | OPrio (pc : pcobj) | OPrioDel (id : positive)
   | OQueue (q : positive) (w st : Z)   (* a Queue version: spec.weight, status.state (1 Open 2 Closed 3 Closing 0 other) *)
-  | OStatus (j : positive).            (* the cycle's UpdateJobStatus for job j: writes nothing the model holds *)
+  | OStatus (j : positive)
+  | ODrainFail (k : nat).              (* k resync drains during which every GET of syncTask fails *)            (* the cycle's UpdateJobStatus for job j: writes nothing the model holds *)
 
 (* outcome of the API side of a bind: 1 = bound; 0 = Binder.Bind fails; 2 = a pre-binder fails;
    3 = a pre-binder fails and the pod status write that follows fails too; 4 = Binder.Bind fails and
@@ -117,6 +118,7 @@ Definition dOp : dec op :=
   | 6 => let* i := dPos in ret (OEv (EPGDel i))
   | 7 => let* q := dPos in let* w := dZ in let* st := dZ in ret (OQueue q w st)
   | 17 => let* j := dPos in ret (OStatus j)
+  | 18 => let* k := dNat in ret (ODrainFail k)
   | 8 => let* q := dPos in ret (OEv (EQueueDel q))
   | 9 => ret (OEv EDrainCleanup)
   | 10 => ret (OEv EDrainResync)
@@ -242,6 +244,9 @@ Fixpoint run_dump (eps : Z) (c : cache) (s : pstate) (qi : qinfo) (ops : list op
   | [] => []
   | OSnap :: r => [-104] ++ eCacheP c s qi ++ [-102] ++ eSnap eps c (take_snapshot eps c) ++
                   [-103] ++ eCacheP c s qi ++ [-105; 1] ++ run_dump eps c s qi r
+  | ODrainFail k :: r =>
+    let c' := Nat.iter k drain_resync_allfail c in
+    [-101; 0] ++ eCacheP c' s qi ++ run_dump eps c' s qi r
   | o :: r =>
     let s' := fold_left phandle (pevents_of o) s in
     let qi' := qinfo_of qi o in
